@@ -26,6 +26,10 @@ OneDev(T, m) == { f \in [T -> Variants(m)] : Cardinality({t \in T : f[t] # InOrd
 \* every track deviates independently
 AnyDev(T, m) == [T -> Variants(m)]
 
+\* the master uploads 1..m, at most one other track deviates
+OneDevNM(T, m) == { f \in OneDev(T, m) : f["V1"] = InOrder(m) }
+U_t2m4_nm == OneDevNM(T2, 4)
+U_t3m5_nm == OneDevNM(T3, 5)
 U_t2m4 == Plain(T2, 4)
 U_t2m4_dev == OneDev(T2, 4)
 U_t2m5_dev == OneDev(T2, 5)
